@@ -2,6 +2,7 @@ package props
 
 import (
 	"bytes"
+	"strconv"
 	"crypto/cipher"
 	"encoding/json"
 	"fmt"
@@ -129,14 +130,29 @@ func (c17) Generate(idx int, r *core.Rand, tier string) core.Script {
 			weights[i] = (weights[i] + 1) / 2
 		}
 	}
+	// focused runs: every task performs the same kind of operation on the same shared
+	// objects, so that two executions of one routine interleave at statement level (the
+	// shape that exposes a temporary shared between calls by a wrong result, independently
+	// of what the race detector can see)
+	focus := -1
+	if w.Chance(1, 3) {
+		focus = w.Weighted(weights...)
+	}
 	for t := 0; t < nt; t++ {
 		var ops []c17Op
 		n := w.Range(1, 6)
 		if L2Enabled {
 			n = w.Range(1, 3)
 		}
+		if focus >= 0 {
+			n = w.Range(1, 2)
+		}
 		for i := 0; i < n; i++ {
-			op := c17Op{Kind: c17Kinds[w.Weighted(weights...)], A: w.Intn(len(s.AEADs)), M: w.Intn(len(s.Msgs)), D: w.Intn(len(s.AADs)), C: w.Intn(s.NSealed), K: w.Intn(s.NKeys), Seed: w.Uint64()}
+			ki := w.Weighted(weights...)
+			if focus >= 0 {
+				ki = focus
+			}
+			op := c17Op{Kind: c17Kinds[ki], A: w.Intn(len(s.AEADs)), M: w.Intn(len(s.Msgs)), D: w.Intn(len(s.AADs)), C: w.Intn(s.NSealed), K: w.Intn(s.NKeys), Seed: w.Uint64()}
 			switch op.Kind {
 			case "Seal":
 				op.Dst = genDst(w, s.Msgs[op.M].Len+s.AEADs[op.A].TagSize, false)
@@ -152,6 +168,9 @@ func (c17) Generate(idx int, r *core.Rand, tier string) core.Script {
 	s.First = sc.Intn(nt)
 	if L2Enabled {
 		s.Den = sc.PickInt(16, 64, 64, 256, 256, 1024, 2048)
+		if focus >= 0 {
+			s.Den = sc.PickInt(8, 16, 32, 64, 128)
+		}
 	} else {
 		s.Den = sc.PickInt(1, 1, 2, 2, 3, 4)
 	}
@@ -261,7 +280,7 @@ func c17Build(s *c17Script, asm bool) *c17World {
 func c17Run(op c17Op, w *c17World, yield func(site int)) (out string) {
 	defer func() {
 		if r := recover(); r != nil {
-			out = fmt.Sprintf("panic: %v", r)
+			out = "panic: " + panicText(r)
 		}
 	}()
 	ai := op.A % len(w.aeads)
@@ -271,7 +290,7 @@ func c17Run(op c17Op, w *c17World, yield func(site int)) (out string) {
 		ai = w.ctA[ci]
 		dst := mkDst(op.Dst)
 		o := w.aeads[ai].Seal(dst, w.nonces[ci], w.msgs[op.M%len(w.msgs)], w.aads[op.D%len(w.aads)])
-		return "seal:" + core.Hex8(o) + fmt.Sprint(len(o))
+		return "seal:" + core.Hex8(o) + strconv.Itoa(len(o))
 	case "Open":
 		ci := op.C % len(w.cts)
 		dst := mkDst(op.Dst)
@@ -280,7 +299,7 @@ func c17Run(op c17Op, w *c17World, yield func(site int)) (out string) {
 			di = (di + 1) % len(w.aads)
 		}
 		o, err := w.aeads[w.ctA[ci]].Open(dst, w.nonces[ci], w.cts[ci], w.aads[di])
-		return "open:" + core.Hex8(o) + fmt.Sprint(len(o), err != nil)
+		return "open:" + core.Hex8(o) + strconv.Itoa(len(o)) + tf(err != nil)
 	case "Encrypt", "Decrypt":
 		dst := slackBuf(16, 16)
 		if op.Kind == "Encrypt" {
@@ -309,25 +328,25 @@ func c17Run(op c17Op, w *c17World, yield func(site int)) (out string) {
 	case "SignHashed":
 		k := op.K % len(w.priv)
 		r, s, err := sm2.SignHashed(rng.New(rng.Content{TailSeed: op.Seed}, nil, nil), w.priv[k], w.es[k])
-		return "sign:" + core.Hex8(append(append([]byte{}, r...), s...)) + fmt.Sprint(err != nil)
+		return "sign:" + core.Hex8(append(append([]byte{}, r...), s...)) + tf(err != nil)
 	case "VerifyHashed":
 		k := op.K % len(w.priv)
 		ok, err := sm2.VerifyHashed(w.px[k], w.py[k], w.es[k], w.rs[k], w.ss[k])
-		return fmt.Sprint("verify:", ok, err != nil)
+		return "verify:" + tf(ok) + tf(err != nil)
 	case "Verify":
 		k := op.K % len(w.priv)
 		ok, err := sm2.Verify(w.ids[k], w.px[k], w.py[k], w.msgs[op.M%len(w.msgs)], w.rs[k], w.ss[k])
-		return fmt.Sprint("verifyid:", ok, err != nil)
+		return "verifyid:" + tf(ok) + tf(err != nil)
 	case "CheckOnCurve":
 		k := op.K % len(w.priv)
-		return fmt.Sprint("oncurve:", sm2.CheckOnCurve(w.px[k], w.py[k]), sm2.CheckOnCurve(w.py[k], w.px[k]))
+		return "oncurve:" + tf(sm2.CheckOnCurve(w.px[k], w.py[k])) + tf(sm2.CheckOnCurve(w.py[k], w.px[k]))
 	case "DerivePublic":
 		k := op.K % len(w.priv)
 		x, y, err := sm2.DerivePublic(w.priv[k])
-		return "derive:" + core.Hex8(append(append([]byte{}, x...), y...)) + fmt.Sprint(err != nil)
+		return "derive:" + core.Hex8(append(append([]byte{}, x...), y...)) + tf(err != nil)
 	case "GenerateKey":
 		d, x, y, err := sm2.GenerateKey(rng.New(rng.Content{TailSeed: op.Seed}, nil, nil))
-		return "genkey:" + core.Hex8(append(append(append([]byte{}, d...), x...), y...)) + fmt.Sprint(err != nil)
+		return "genkey:" + core.Hex8(append(append(append([]byte{}, d...), x...), y...)) + tf(err != nil)
 	case "SM3":
 		h := sm3.New()
 		m := w.msgs[op.M%len(w.msgs)]
@@ -398,7 +417,7 @@ func (c17) Execute(sc core.Script, keep bool) *core.Result {
 		}
 		for i, b := range bufs {
 			if !bytes.Equal(b, snaps[i]) {
-				damaged[task] = fmt.Sprintf("%s|%s", roles[i], names[i])
+				damaged[task] = roles[i] + "|" + names[i]
 				return
 			}
 		}
@@ -418,7 +437,7 @@ func (c17) Execute(sc core.Script, keep bool) *core.Result {
 				sch.Yield(1000 + 2*kindIndex(op.Kind))
 				o := c17Run(op, shared, y)
 				got[t][i] = o
-				events[t] = append(events[t], c17Event{sch.Count(), fmt.Sprintf("t%d op%d %s -> %s", t, i, op.Kind, o)})
+				events[t] = append(events[t], c17Event{sch.Count(), "t" + strconv.Itoa(t) + " op" + strconv.Itoa(i) + " " + op.Kind + " -> " + o})
 				checkShared(t)
 				sch.Yield(1001 + 2*kindIndex(op.Kind))
 			}
@@ -664,4 +683,25 @@ func (c17) Shrinks(sc core.Script) []core.Script {
 		out = append(out, c)
 	}
 	return out
+}
+
+// tf and panicText format without fmt: code that runs inside the tasks must not use
+// fmt, whose internal sync.Pool would create happens-before edges between tasks and
+// could hide a race from the detector (which edge exists depends on which P each
+// goroutine happens to run on, i.e. is not reproducible).
+func tf(b bool) string {
+	if b {
+		return "T"
+	}
+	return "F"
+}
+
+func panicText(r interface{}) string {
+	switch x := r.(type) {
+	case string:
+		return x
+	case error:
+		return x.Error()
+	}
+	return "non-string panic value"
 }
